@@ -82,6 +82,13 @@ BUILTIN_RAISES = [
     ('user-exception-args-raises', "class MyError(Exception):\n    @property\n    def args(self):\n        raise RuntimeError('no args')\nraise MyError('mine')"),
     ('user-exception-getattr-raises', "class MyError(Exception):\n    def __getattr__(self, name):\n        raise RuntimeError('no attribute ' + name)\nraise MyError('mine')"),
     ('user-exception-metaclass-name', "class Meta(type):\n    def __str__(cls):\n        raise RuntimeError('no class str')\n    __repr__ = __str__\nclass MyError(Exception, metaclass=Meta):\n    pass\nraise MyError('mine')"),
+    ('SyntaxError-raised-lineno-text', "raise SyntaxError('made up', ('answer.py', 'notanint', None, None))"),
+    ('SyntaxError-raised-lineno-negative', "raise SyntaxError('made up', ('answer.py', -5, 5, 'abc'))"),
+    ('SyntaxError-raised-lineno-float', "raise SyntaxError('made up', ('answer.py', 1.5, 1, 'abc'))"),
+    ('SyntaxError-raised-offset-text', "raise SyntaxError('made up', ('answer.py', 1, 'a', None))"),
+    ('SyntaxError-raised-other-file', "raise SyntaxError('made up', ('/etc/passwd', 1, 5, 'abc'))"),
+    ('SyntaxError-raised-line-past-the-end', "raise SyntaxError('made up', ('answer.py', 500, 2, 'abc', 501, 3))"),
+    ('exception-after-sys-modules-rebound', "import sys\nsys.modules = {}\nx = 1 / 0"),
     ('user-exception-str-returns-str-subclass', "class Odd(str):\n    def __getitem__(self, k):\n        raise RuntimeError('no slicing')\n    def upper(self):\n        raise RuntimeError('no upper')\nclass MyError(Exception):\n    def __str__(self):\n        return Odd('mine')\nraise MyError('mine')"),
     ('user-exception-class-name-empty', "class MyError(Exception):\n    pass\nMyError.__name__ = ''\nraise MyError('mine')"),
     ('user-exception-metaclass-name-raises', "class Meta(type):\n    @property\n    def __name__(cls):\n        raise RuntimeError('no name')\nclass MyError(Exception, metaclass=Meta):\n    pass\nraise MyError('mine')"),
@@ -119,7 +126,7 @@ OKAY = [
     ('ok-print', "print('fine')"), ('ok-silent', "x = 1"), ('ok-input', "v = input('p')\nprint(v)"),
     ('ok-import', "import json\nimport string\nprint(json.dumps([1]))"), ('ok-handled', "try:\n    1 / 0\nexcept ZeroDivisionError:\n    print('handled')"),
     ('ok-stdout-closed', "import sys\nprint('said')\nsys.stdout.close()"), ('ok-stdout-reassigned', "import sys, io\nsys.stdout = io.StringIO()\nprint('lost')"),
-    ('ok-stdout-deleted', "import sys\ndel sys.stdout"), ('ok-sleep-replaced', "import time\ntime.sleep = None"),
+    ('ok-stdout-deleted', "import sys\ndel sys.stdout"), ('ok-sys-modules-rebound', "import sys\nsys.modules = dict(sys.modules)"), ('ok-sys-modules-emptied', "import sys\nsys.modules = {}"), ('ok-sleep-replaced', "import time\ntime.sleep = None"),
     ('ok-sleep', "import time\ntime.sleep(0.01)\nprint('slept')"), ('ok-write', "import sys\nsys.stdout.write('w')"),
 ]
 COMPILE_FAIL = [
@@ -297,6 +304,7 @@ def reference(files, entry, inputs, call_args=()):
     b['__import__'] = _ref_import(files, ns)
     buf = io.StringIO()
     real_sleep = time.sleep
+    real_modules = sys.modules
     try:
         time.sleep = lambda *a, **k: None
         with contextlib.redirect_stdout(buf):
@@ -318,6 +326,7 @@ def reference(files, entry, inputs, call_args=()):
                         r.line = tb[-1].lineno
     finally:
         time.sleep = real_sleep
+        sys.modules = real_modules          # (the reference run is the real thing: whatever the body rebinds is rebound for real)
     r.output = buf.getvalue() if not buf.closed else ''
     return r
 
@@ -333,6 +342,7 @@ class Snapshot:
         self.sleep = time.sleep
         self.trace = sys.gettrace()
         self.modules = dict(sys.modules)
+        self.module_table = sys.modules
         self.builtins_input = builtins.input
         self.builtins_open = builtins.open
         self.builtins_import = builtins.__import__
@@ -352,6 +362,9 @@ class Snapshot:
             if getattr(builtins, name) is not attr:
                 out.append(('builtins.' + name, 'replaced'))
         now = sys.modules
+        if now is not self.module_table:
+            out.append(('sys.modules-is-another-object', 'a %s with %d entries' % (type(now).__name__, len(now) if hasattr(now, '__len__') else -1)))
+            now = self.module_table
         changed = [k for k, v in self.modules.items() if now.get(k, None) is not v]
         if changed:
             out.append(('sys.modules-entry-changed', sorted(changed)[:5]))
@@ -379,6 +392,7 @@ class Snapshot:
         sys.stdout = self.stdout
         time.sleep = self.sleep
         sys.settrace(self.trace)
+        sys.modules = self.module_table
         for k in list(sys.modules):
             if k not in self.modules:
                 pass
